@@ -29,6 +29,7 @@ type Program struct {
 	roleUnseen []string // function values supplied to callback roles that could not be followed
 	fakeTypes map[string]types.Type // replay: synthetic dynamic types of scripted fakes
 	fakeIface map[int]types.Type    // fake type id -> the interface it fakes
+	houdiniDropped map[string]bool  // refuted invariant candidates (houdini.go)
 }
 
 // rootOK returns an SMT predicate body over x (the root type id of an
